@@ -16,7 +16,7 @@ extern "C" {
     fn mprotect(addr: *mut u8, len: usize, prot: i32) -> i32;
 }
 const PAGE: usize = 4096;
-const DATA_PAGES: usize = 2;
+const DATA_PAGES: usize = 4;
 
 /// [unreadable page][DATA_PAGES readable pages][unreadable page]
 pub struct Guarded {
@@ -85,6 +85,8 @@ pub fn lists(thorough: bool, seed: usize) -> Vec<Vec<Vec<u8>>> {
 fn lengths(thorough: bool) -> Vec<usize> {
     let mut v: Vec<usize> = (0..=(if thorough { 300 } else { 140 })).collect();
     v.extend(if thorough { 480..=1100 } else { 500..=640 });
+    // around and beyond a page (code that treats "big" haystacks differently)
+    v.extend([4095usize, 4096, 4097, 5000, 8191, 8192, 8193, 12345, 16384]);
     v
 }
 
